@@ -47,7 +47,7 @@ class ProgramProperty(Property):
                 '_feats': sorted(g.features | r.feats), '_items': items, '_gen': g, '_marks': r.marks}
 
     def open(self):
-        return open_ids(self.id)
+        return open_ids(self.id) | ({'C07-F1'} & open_ids('C07'))
 
     def reference(self, case, ctx):
         key = (case['text'], case['mode'], bool(case.get('py312')))
@@ -93,7 +93,7 @@ class C01(ProgramProperty):
         return 26000 if tier == 'quick' else 650000
 
     def avoid(self):
-        return {'C01-F1', 'C01-F2', 'C01-F3', 'C01-F4', 'C01-F22', 'C01-F23', 'C01-F24'}
+        return {'C01-F1', 'C01-F2', 'C01-F3', 'C01-F4', 'C01-F22', 'C01-F23', 'C01-F24', 'C07-F1'}
 
     def explicit_cases(self, ctx):
         if ctx.tier == 'thorough':
